@@ -565,6 +565,10 @@ def m_isinstance(interp, x, t):
         return isinstance('', t)
     if isinstance(x, SymList):
         return isinstance([], t)
+    if isinstance(x, (PackedInt, PackedFloat)):
+        return isinstance(b'', t)
+    if isinstance(x, SymByteSeq):
+        return isinstance(bytearray() if x.mutable else b'', t)
     return isinstance(x, t)
 
 
@@ -791,9 +795,30 @@ def m_chr(interp, n):
 
 
 def m_bytes(interp, x=b'', *a):
+    if isinstance(x, SymByteSeq):
+        return SymByteSeq(x.items)
+    if isinstance(x, (PackedInt, PackedFloat)):
+        return x
     if has_sym(x, 1):
-        return SymBytes(interp, x)
+        p = interp.path
+        items = []
+        for v in x:
+            if is_sym(v):
+                if not p.branch(land(0 <= v, v < 256)):
+                    raise ValueError('bytes must be in range(0, 256)')
+                items.append(_bv8(v))
+            else:
+                if not 0 <= v < 256:
+                    raise ValueError('bytes must be in range(0, 256)')
+                items.append(v)
+        return SymByteSeq(items)
     return bytes(x, *a)
+
+
+def m_bytearray(interp, x=b''):
+    if isinstance(x, SymByteSeq):
+        return SymByteSeq(x.items, mutable=True)
+    return bytearray(x)
 
 
 class SymBytes:
@@ -833,6 +858,8 @@ def m_struct_pack(interp, fmt, *vals):
     if not has_sym(vals, 1):
         return struct.pack(fmt, *vals)
     f = fmt.lstrip('<>=!@')
+    if len(f) > 1 or len(vals) != 1:
+        return struct_pack_multi(interp, fmt, vals)
     if len(f) == 1 and f in STRUCT_INT and len(vals) == 1:
         lo, hi = STRUCT_INT[f]
         v = vals[0]
@@ -865,6 +892,8 @@ class PackedFloat:
 
 
 def m_struct_unpack(interp, fmt, data):
+    if isinstance(data, SymByteSeq):
+        return struct_unpack_bytes(interp, fmt, data)
     if isinstance(data, (PackedInt, PackedFloat)):
         f = fmt.lstrip('<>=!@')
         g = data.fmt.lstrip('<>=!@')
@@ -984,7 +1013,7 @@ _TABLE = {
     id(builtins.bytes): m_bytes, id(struct.pack): m_struct_pack, id(struct.unpack): m_struct_unpack,
     id(ctypes.c_float): m_c_float, id(ctypes.c_double): m_c_double, id(ctypes.c_short): m_c_short,
     id(ctypes.c_long): m_c_long, id(ctypes.c_int): m_c_int, id(builtins.sorted): m_sorted,
-    id(builtins.zip): m_zip,
+    id(builtins.zip): m_zip, id(builtins.bytearray): lambda interp, x=b'': m_bytearray(interp, x),
 }
 _KEEP = [builtins.len, math.floor, struct.pack, struct.unpack]
 
@@ -1032,3 +1061,175 @@ def lookup_bound(f):
                 return default
             return get
     return None
+
+
+# ------------------------------------------------------------------------------------------
+# byte strings of concrete length whose bytes may be symbolic (struct codecs, assembler, loader)
+
+
+def _bv8(x):
+    if isinstance(x, int):
+        return z3.BitVecVal(x, 8)
+    if isinstance(x, SymInt):
+        return z3.Int2BV(x.term, 8)
+    return x
+
+
+class SymByteSeq:
+    """bytes / bytearray with a concrete length; items are ints or 8-bit z3 terms.  Immutable unless `mutable`."""
+
+    def __init__(self, items, mutable=False):
+        self.items = list(items)
+        self.mutable = mutable
+
+    def __len__(self):
+        return len(self.items)
+
+    def _wrap(self, b):
+        if isinstance(b, int):
+            return b
+        t = z3.simplify(b)
+        if z3.is_bv_value(t):
+            return t.as_long()
+        return SymInt(z3.BV2Int(t, is_signed=False), (0, 255))
+
+    def __getitem__(self, i):
+        if isinstance(i, slice):
+            if has_sym((i.start, i.stop, i.step), 1):
+                raise Unsupported('symbolic slice of a byte string')
+            return SymByteSeq(self.items[i])
+        if isinstance(i, Sym):
+            raise Unsupported('symbolic index into a byte string')
+        return self._wrap(self.items[i])
+
+    def __iter__(self):
+        return iter([self._wrap(b) for b in self.items])
+
+    def __add__(self, o):
+        return SymByteSeq(self.items + as_byte_items(o), self.mutable)
+
+    def __radd__(self, o):
+        return SymByteSeq(as_byte_items(o) + self.items, isinstance(o, bytearray))
+
+    def __iadd__(self, o):
+        if self.mutable:
+            self.items.extend(as_byte_items(o))
+            return self
+        return self.__add__(o)
+
+    def __setitem__(self, i, v):
+        if not self.mutable:
+            raise TypeError("'bytes' object does not support item assignment")
+        if isinstance(i, slice):
+            if has_sym((i.start, i.stop, i.step), 1):
+                raise Unsupported('symbolic slice store into a bytearray')
+            self.items[i] = as_byte_items(v)
+        else:
+            self.items[i] = _bv8(v) if is_sym(v) else v
+
+    def __eq__(self, o):
+        try:
+            oi = as_byte_items(o)
+        except TypeError:
+            return False
+        if len(oi) != len(self.items):
+            return False
+        conds = []
+        for a, b in zip(self.items, oi):
+            if isinstance(a, int) and isinstance(b, int):
+                if a != b:
+                    return False
+                continue
+            conds.append(_bv8(a) == _bv8(b))
+        if not conds:
+            return True
+        return SymBool(z3.And(*conds))
+
+    __hash__ = None
+
+    def decode(self, enc='utf-8', *a):
+        if all(isinstance(b, int) for b in self.items):
+            return bytes(self.items).decode(enc, *a)
+        raise Unsupported('decode of a byte string with symbolic bytes')
+
+    def __repr__(self):
+        return f'SymByteSeq({self.items})'
+
+
+def as_byte_items(o):
+    if isinstance(o, SymByteSeq):
+        return list(o.items)
+    if isinstance(o, (bytes, bytearray)):
+        return list(o)
+    if isinstance(o, (PackedInt, PackedFloat)):
+        return packed_items(o)
+    raise TypeError(f"can't concat {type(o).__name__} to bytes")
+
+
+def packed_items(pk):
+    if isinstance(pk, PackedInt):
+        bits = pk.size * 8
+        bv = z3.Int2BV(_i(pk.value), bits)
+    else:
+        f = pk.fmt.lstrip('<>=!@')
+        x = _f(pk.value)
+        bv = z3.fpToIEEEBV(z3.fpFPToFP(RNE, x, F32)) if f == 'f' else z3.fpToIEEEBV(x)
+        bits = pk.size * 8
+    return [z3.simplify(z3.Extract(bits - 1 - 8 * k, bits - 8 - 8 * k, bv)) for k in range(pk.size)]
+
+
+_STRUCT_SIZES = {'b': 1, 'B': 1, 'h': 2, 'H': 2, 'i': 4, 'I': 4, 'l': 4, 'L': 4, 'q': 8, 'Q': 8, 'f': 4, 'd': 8}
+
+
+def _parse_fmt(fmt):
+    if not fmt or fmt[0] not in '>!':
+        raise Unsupported(f'struct format {fmt!r} (only big-endian standard sizes are modelled)')
+    out = []
+    num = ''
+    for ch in fmt[1:]:
+        if ch.isdigit():
+            num += ch
+            continue
+        if ch not in _STRUCT_SIZES:
+            raise Unsupported(f'struct format character {ch!r}')
+        out.extend([ch] * (int(num) if num else 1))
+        num = ''
+    return out
+
+
+def struct_pack_multi(interp, fmt, vals):
+    chars = _parse_fmt(fmt)
+    if len(chars) != len(vals):
+        raise struct.error(f'pack expected {len(chars)} items for packing (got {len(vals)})')
+    items = []
+    for ch, v in zip(chars, vals):
+        one = m_struct_pack(interp, '>' + ch, v)
+        items.extend(as_byte_items(one))
+    return SymByteSeq(items)
+
+
+def struct_unpack_bytes(interp, fmt, data):
+    chars = _parse_fmt(fmt)
+    items = as_byte_items(data)
+    need = sum(_STRUCT_SIZES[c] for c in chars)
+    if len(items) != need:
+        raise struct.error(f'unpack requires a buffer of {need} bytes')
+    out = []
+    pos = 0
+    for ch in chars:
+        n = _STRUCT_SIZES[ch]
+        chunk = items[pos:pos + n]
+        pos += n
+        if all(isinstance(b, int) for b in chunk):
+            out.append(struct.unpack('>' + ch, bytes(chunk))[0])
+            continue
+        bv = z3.Concat(*[_bv8(b) for b in chunk]) if n > 1 else _bv8(chunk[0])
+        if ch in 'fd':
+            if ch == 'f':
+                out.append(SymFloat(z3.fpFPToFP(RNE, z3.fpBVToFP(bv, F32), F64)))
+            else:
+                out.append(SymFloat(z3.fpBVToFP(bv, F64)))
+        else:
+            lo, hi = STRUCT_INT[ch]
+            out.append(SymInt(z3.BV2Int(z3.simplify(bv), is_signed=lo < 0), (lo, hi)))
+    return tuple(out)
